@@ -12,7 +12,8 @@ RULE = ("unit cases: one real SegmentFetcher (k 1..4) driven event by event (add
         "finder cases: one real ShareFinder over <= 8 servers with answers, errors and overdue timers in random order; "
         "grid cases: N<=6 shares placed on <= N+3 servers (several per server), subsets deleted / corrupted (block data, version "
         "field, truncation, hash trees, UEB) / failing on the nth read, DYHB answers that are late, lost, fail at once (lost connection: already-failed Deferred), or arrive only after the finder's "
-        "OVERDUE timer has fired (grid time warp), schedules by seed; a share of the cases under a frozen / coarse (1/64 s) / backwards / jumping downloader clock; wrong-guess cases: first reads of fresh nodes at offsets whose guessed segment number is the real number of segments exactly, one less or more "
+        "OVERDUE timer has fired (grid time warp), schedules by seed; a share of the cases under a frozen / coarse (1/64 s) / backwards / jumping downloader clock; forced in every run: files whose UEB is padded (one extra ignored field) to every length 2039..2050 (v1 shares) and 2035..2046 (v2 shares) and to "
+        "5000 bytes, read through fresh nodes with all, exactly k and k-1 shares; wrong-guess cases: first reads of fresh nodes at offsets whose guessed segment number is the real number of segments exactly, one less or more "
         "(default_max_segment_size substituted so that small files are guessed wrongly); idle-node cases: one cached node, a first read served by k holders while the other "
         "holders' DYHB answers arrive only after it finished, the used shares then deleted, the file read again through the same node; "
         "non-trivial = at least one share bad or one fault planned")
@@ -1109,8 +1110,86 @@ def guess_cases(ctx):
         ctx.trace(1)
 
 
+# ---------------------------------------------------------------------------
+# grid, forced in every run: UEB lengths around the downloader's speculative 2 KiB read
+# ---------------------------------------------------------------------------
+UEB_TARGETS_V1 = list(range(2039, 2051)) + [5000]       # the 2048-byte speculative read starts at the 4-byte length field: 2044 bytes of UEB
+UEB_TARGETS_V2 = list(range(2035, 2047)) + [5000]       # 8-byte length field: 2040 bytes of UEB
+
+
+def run_ueb_case(case):
+    """case: {"k","n","version": 1|2,"ueb_length": L}.  Uploads a file whose UEB is padded (one extra field, ignored by
+    readers) to exactly L bytes on disk, then reads it through fresh nodes with all shares, exactly k, and k-1."""
+    from core import grid as G
+    from props.segq_common import upload_with_big_ueb, parse_share
+    import allmydata.immutable.layout as LAYOUT
+    k, n, L = case["k"], case["n"], case["ueb_length"]
+    data = bytes((7 * i + L) & 0xFF for i in range(200))
+    saved = LAYOUT.WriteBucketProxy
+    outs = []
+    with G.Grid(num_servers=n, k=k, n=n, happy=1, max_segment_size=64, seed=L, timeout=15) as g:
+        try:
+            if case["version"] == 2:
+                LAYOUT.WriteBucketProxy = LAYOUT.WriteBucketProxy_v2       # upload side only: write v2 shares
+            # first upload measures the UEB length for a known padding, the second hits the target exactly
+            cap0 = upload_with_big_ueb(g, data, 1700, convergence=b"ueb-probe")
+            base = len(parse_share(g.read_share(g.find_shares(cap0)[0]))["ueb"])
+            extra = 1700 + (L - base)
+            cap = upload_with_big_ueb(g, data, extra, convergence=b"ueb-%d" % L)
+        finally:
+            LAYOUT.WriteBucketProxy = saved
+        shares = g.find_shares(cap)
+        p = parse_share(g.read_share(shares[0]))
+        on_disk = len(p["ueb"])
+        import struct
+        version = struct.unpack(">L", p["data"][:4])[0]
+        for keep, label in ((n, "all shares"), (k, "exactly k shares"), (k - 1, "k-1 shares")):
+            for sh in g.find_shares(cap)[keep:]:
+                g.delete_share(sh)
+            g.client(0).nodemaker._node_cache.clear()
+            outs.append((label, keep, g.run(g.download(cap), outcome=True)))
+    return data, on_disk, version, outs
+
+
+def ueb_boundary_cases(ctx):
+    ctx.correspondence("grid-downloads-vs-rule")
+    for version, targets in ((1, UEB_TARGETS_V1), (2, UEB_TARGETS_V2)):
+        for L in targets:
+            case = {"k": 2, "n": 3, "version": version, "ueb_length": L}
+            try:
+                data, on_disk, ver, outs = run_ueb_case(case)
+            except Exception as e:
+                ctx.mismatch("grid-harness-error", "UEB case could not be run: %s: %s" % (type(e).__name__, e), case=case, correspondence="grid-downloads-vs-rule")
+                continue
+            if on_disk != L or ver != version:
+                ctx.mismatch("grid-harness-error", "UEB on disk has %d bytes in a v%d share, wanted %d in v%d" % (on_disk, ver, L, version), case=case,
+                             correspondence="grid-downloads-vs-rule")
+            res = []
+            for label, keep, o in outs:
+                res.append(o.status if o.status != "error" else o.error)
+                where = "file with a %d-byte UEB (v%d shares, k=%d), %s" % (on_disk, ver, case["k"], label)
+                if o.status in ("hung", "timeout"):
+                    ctx.oracle_fail("read-hangs-with-ueb-length", "read of a %s is %s: every server has answered, the read neither returns nor fails" % (where, o.status),
+                                    case=case, expected="data" if keep >= case["k"] else "NotEnoughSharesError", observed=o.status)
+                elif keep >= case["k"]:
+                    if o.status != "ok":
+                        ctx.oracle_fail("k-good-shares-but-read-failed", "read of a %s failed with %s" % (where, o.error), case=case, expected="data",
+                                        observed=str(o.failure.value)[:300] if o.failure else o.error)
+                    elif o.value != data:
+                        ctx.oracle_fail("read-returned-wrong-data", "read of a %s returned wrong bytes" % where, case=case)
+                elif o.status == "ok":
+                    ctx.oracle_fail("data-from-fewer-than-k-good-shares", "read of a %s succeeded" % where, case=case)
+                elif o.error not in ("NotEnoughSharesError", "NoSharesError"):
+                    ctx.oracle_fail("wrong-error-class-for-missing-shares", "read of a %s failed with %s" % (where, o.error), case=case)
+            ctx.case((version, L, tuple(res)), kind="grid:ueb-length-v%d" % version)
+            ctx.trace(1)
+
+
 def replay(ctx, rec):
     case = rec.get("case") or {}
+    if "ueb_length" in case:
+        data, on_disk, ver, outs = run_ueb_case(case)
+        return {"ueb_on_disk": on_disk, "share_version": ver, "reads": [[label, o.status, o.error] for label, keep, o in outs]}
     if "guess_max" in case:
         data, outs = run_guess_case(case)
         return [[off, sz, guessed, o.status, o.error] for off, sz, guessed, o in outs]
@@ -1128,6 +1207,7 @@ def replay(ctx, rec):
 def run(ctx):
     unit_cases(ctx)
     finder_cases(ctx)
+    ueb_boundary_cases(ctx)
     grid_cases(ctx)
     idle_node_cases(ctx)
     guess_cases(ctx)
